@@ -461,6 +461,11 @@ class Translator:
             except Unsupported:
                 continue                  # reading this field later is then rejected
             key = '%s.%s' % (var, name)
+            if t == NONE:
+                # a field that holds the constant None: typed only if the site declares it (`locals`)
+                if key not in self.site.locals:
+                    continue
+                t = self.site.locals[key]
             env2[key] = (lean_name(key), t)
             lets += ind + 'let %s : %s := %s\n' % (lean_name(key), lean_ty(t), term)
         return lets + self.block(rest, env2, ind)
@@ -1059,7 +1064,7 @@ def build_sites(repo):
     """[(name, thunk)]: each thunk returns a Site or raises Unsupported.  Order = order in Code.lean
     (a definition may call the ones before it)."""
     T = {n: parse_file(repo, n + '.py') for n in ('frame', 'frame_parser', 'opcode', 'session', 'persist', 'websocket', 'compression',
-                                                          'message', 'parser', 'response')}
+                                                          'message', 'parser', 'response', 'mask')}
     OPC = {'Opcode.' + k: ('Lomond.Gen.' + v, NAT) for k, v in (
         ('CONTINUATION', 'opContinuation'), ('TEXT', 'opText'), ('BINARY', 'opBinary'), ('CLOSE', 'opClose'),
         ('PING', 'opPing'), ('PONG', 'opPong'))}
@@ -1361,6 +1366,99 @@ def build_sites(repo):
                 'WebsocketSession.send no longer writes Frame(opcode, payload=bytearray(data)).to_bytes()')
         return Site('sessionSendClosing', 'session.py WebsocketSession.send: the `closing=` argument of self.write',
                     [('opcode', NAT)], [ast.Return(value=c.keywords[0].value)], consts=OPC)
+
+    # ---- the frame `send_compressed` writes; the masking key `Frame.build` draws (C03_Gen / C03_Z) -----------
+    BUILD_PARAMS = ['opcode', 'payload', 'fin', 'rsv1', 'rsv2', 'rsv3', 'mask', 'masking_key']
+
+    @site('sessionSendCompressedFrame')
+    def _():
+        body = sess('send_compressed')
+        w = only([s_ for s_ in body if isinstance(s_, ast.With)], 'the `with` block of WebsocketSession.send_compressed')
+        require([ast.unparse(i.context_expr) for i in w.items] == ['self._lock'] and w.items[0].optional_vars is None,
+                'WebsocketSession.send_compressed no longer works under `with self._lock:`')
+        init = method(frame_cls(), '__init__')
+        require([a.arg for a in init.args.args][1:] == BUILD_PARAMS, 'Frame.__init__ parameters changed')
+        return Site('sessionSendCompressedFrame',
+                    'session.py WebsocketSession.send_compressed: the statements under `with self._lock:` (z = bytearray(compress(data))); '
+                    'result = (opcode, payload, fin, rsv1, rsv2, rsv3, mask, masking_key) of the Frame whose to_bytes() goes to _sendall',
+                    [('opcode', NAT), ('z', BYTES)], w.body,
+                    bind={'bytearray(compress(data))': 'z'}, records={'Frame': init}, locals={'frame.masking_key': OPT(BYTES)},
+                    rewrite={'self._check_writable()': 'pass',
+                             'self._sendall(frame.to_bytes())':
+                                 'return (frame.opcode, frame.payload, frame.fin, frame.rsv1, frame.rsv2, frame.rsv3, frame.mask, frame.masking_key)'})
+
+    @site('frameToBytes')
+    def _():
+        body = body_of(method(frame_cls(), 'to_bytes'))
+        st = assign_to(body, 'frame_bytes', 'Frame.to_bytes')
+        call = st.value
+        require(isinstance(call, ast.Call) and ast.unparse(call.func) == 'self.build' and ast.unparse(body[-1]) == 'return frame_bytes'
+                and len(body) == 2, 'Frame.to_bytes is no longer `frame_bytes = self.build(..); return frame_bytes`')
+        b = method(frame_cls(), 'build')
+        a = b.args
+        require(not (a.vararg or a.kwarg or a.kwonlyargs or a.posonlyargs) and [x.arg for x in a.args] == ['cls'] + BUILD_PARAMS,
+                'signature of Frame.build changed')
+        defaults = dict(zip(BUILD_PARAMS[len(BUILD_PARAMS) - len(a.defaults):], a.defaults))
+        given = dict(zip(BUILD_PARAMS, call.args))
+        for kw in call.keywords:
+            require(kw.arg in BUILD_PARAMS and kw.arg not in given, 'Frame.to_bytes: keyword `%s`' % kw.arg)
+            given[kw.arg] = kw.value
+        vals = []
+        for p_ in BUILD_PARAMS:
+            require(p_ in given or p_ in defaults, 'Frame.to_bytes: argument `%s` of build missing' % p_)
+            vals.append(given.get(p_, defaults.get(p_)))
+        return Site('frameToBytes',
+                    'frame.py Frame.to_bytes: the arguments its call of Frame.build binds, (opcode, payload, fin, rsv1, rsv2, rsv3, mask, masking_key); '
+                    'a parameter the call does not pass has the default of Frame.build',
+                    FIELDS[4:] + [('payload', BYTES)] + FIELDS[:4] + [('mask', BOOL), ('masking_key', OPT(BYTES))],
+                    [ast.Return(value=ast.Tuple(elts=vals, ctx=ast.Load()))],
+                    bind=dict(SELF_FIELDS, **{'self.mask': 'mask', 'self.masking_key': 'masking_key'}))
+
+    @site('frameMakeMaskingKey')
+    def _():
+        st = only([s_ for s_ in T['mask'].body if isinstance(s_, ast.Assign) and [ast.unparse(t) for t in s_.targets] == ['make_masking_key']],
+                  'the assignment of make_masking_key in mask.py')
+        v = st.value
+        require(isinstance(v, ast.Call) and ast.unparse(v.func) == 'partial' and len(v.args) == 2 and not v.keywords
+                and ast.unparse(v.args[0]) == 'os.urandom', 'mask.py: make_masking_key = partial(os.urandom, N)')
+        require(any(isinstance(s_, ast.ImportFrom) and s_.module == 'functools' and any(x.name == 'partial' and x.asname is None for x in s_.names)
+                    for s_ in T['mask'].body), 'mask.py: `from functools import partial`')
+        require(any(isinstance(s_, ast.ImportFrom) and s_.module == 'mask' and s_.level == 1
+                    and any(x.name == 'make_masking_key' and x.asname is None for x in s_.names) for s_ in T['frame'].body),
+                'frame.py: `from .mask import make_masking_key`')
+        call = ast.Call(func=v.args[0], args=[v.args[1]], keywords=[])          # partial(f, a)() is f(a)
+        return Site('frameMakeMaskingKey',
+                    'mask.py `make_masking_key = partial(os.urandom, N)`, called without arguments by Frame.build: os.urandom(N) (urandom = os.urandom)',
+                    [('urandom', FN([NAT], BYTES))], [ast.Return(value=call)],
+                    externs={ast.unparse(call): ('urandom', [ast.unparse(v.args[1])], None)})
+
+    @site('frameBuildKey')
+    def _():
+        i = only([s_ for s_ in build_fn() if isinstance(s_, ast.If) and ast.unparse(s_.test) == 'mask'], '`if mask:` in Frame.build')
+        st = assign_to(i.body, 'masking_key', 'Frame.build, under `if mask:`')
+        require(i.body.index(st) == 0, 'Frame.build: the masking key is no longer chosen first under `if mask:`')
+        return Site('frameBuildKey',
+                    'frame.py Frame.build: `masking_key = ...` under `if mask:` (fresh = the value of make_masking_key())',
+                    [('masking_key', OPT(BYTES)), ('fresh', BYTES)], [st], result='masking_key', bind={'make_masking_key()': 'fresh'})
+
+    @site('wsSendJson')
+    def _():
+        fn = method(ws_cls(), 'send_json')
+        require([a.arg for a in fn.args.args] == ['self', '_obj'] and [ast.unparse(d) for d in fn.args.defaults] == ['Ellipsis']
+                and fn.args.kwarg is not None and fn.args.kwarg.arg == 'kwargs' and not fn.args.vararg and not fn.args.kwonlyargs,
+                'WebSocket.send_json(self, _obj=Ellipsis, **kwargs)')
+        st = method(ws_cls(), 'send_text')
+        require([a.arg for a in st.args.args] == ['self', 'text', 'compress'] and [ast.unparse(d) for d in st.args.defaults] == ['True'],
+                'WebSocket.send_text(self, text, compress=True)')
+        return Site('wsSendJson',
+                    'websocket.py WebSocket.send_json (has_obj = `_obj is not Ellipsis`, has_kwargs = bool(kwargs)); result = (which object '
+                    'json.dumps receives: 1 the positional argument, 2 the dict of keyword arguments; send_text(<the dumped text>) was called, '
+                    'with its default compress=True)',
+                    [('has_obj', BOOL), ('has_kwargs', BOOL)], body_of(fn),
+                    prefix='dumped = 0\nsent = False', outputs=['dumped', 'sent'],
+                    bind={'_obj is not Ellipsis': 'has_obj', 'kwargs': 'has_kwargs'},
+                    rewrite={'json_obj = json.dumps(_obj if _obj is not Ellipsis else kwargs)': 'dumped = 1 if _obj is not Ellipsis else 2',
+                             "self.send_text(json_obj.decode('utf-8') if six.PY2 else json_obj)": 'sent = True'})
 
     @site('proxyDefaultPort')
     def _():
